@@ -8,7 +8,7 @@ Theorems over the tree model M-Res (`TTV/Model/Result.lean`), for **every** grap
 `ExtendedToOriginalDecorator`, `TestResultDecorator`, `Tagger`, `ThreadsafeForwardingResult`, `MultiTestResult`
 over `TestResult` / `TextTestResult` leaves and **every** call history (no bound).
 
-* `holds_model_partial`        : the clauses `verdict`, `text-summary`, `failfast-stops`, `stop-sticky`, `stop-reaches`, `exit-status` of
+* `holds_model_partial`        : the clauses `verdict`, `text-summary`, `failfast-stops`, `stop-sticky`, `not-earlier`, `stop-reaches`, `exit-status` of
                                  `Spec.C04.clauses` are true of the model's trace (see its docstring for the scope)
 * `C04_verdict`                : `wasSuccessful()` is false exactly when an error / failure / unexpected success was reported
                                  since the last `startTestRun` (on any branch of a `MultiTestResult`)
@@ -17,9 +17,10 @@ over `TestResult` / `TextTestResult` leaves and **every** call history (no bound
                                  `ThreadsafeForwardingResult`: finding `tfrOwnFailfastDirect`)
 * `C04_stop_reaches`           : `stop()` on any node sets `shouldStop` on every result below it and on the node
 * `C04_stop_sticky`            : `shouldStop` stays set under every call but `startTestRun`
+* `C04_not_earlier`            : `shouldStop` only after `stop()` or after a bad outcome with fail-fast set somewhere
 * `C04_exit`                   : exit status and summary of `testtools.run` for a module of test cases, with and without `-f`
 * `C04_finding_tfr`, `C04_finding_nested` : the model reproduces the two known findings
-Not proved (correspondence only): the clauses `failfast-kept` (wrapping leaves `failfast` alone) and `not-earlier`; everything through `ExtendedToStreamDecorator` + `StreamFailFast`.
+Not proved (correspondence only): the clause `failfast-kept` (wrapping leaves `failfast` alone); everything through `ExtendedToStreamDecorator` + `StreamFailFast`.
 -/
 namespace TTV.Props.C04
 open TTV.Result TTV.ResC04 TTV.Spec.C04 TTV.Lemmas.LeafAct TTV.Lemmas.ResEmit
@@ -1426,6 +1427,171 @@ theorem calmL_restore : ∀ (ss : List Shape), Shape.noStreamL ss = true → ∀
       · exact b l hl
 end
 
+mutual
+theorem calm_run : ∀ (s : Shape), ownLeaves s = true → s.noStream = true → ∀ (st : St s),
+    Calm s (step s st .startTestRun)
+  | .sink _, ho, _, _ => by simp [ownLeaves] at ho
+  | .tbt, ho, _, _ => by simp [ownLeaves] at ho
+  | .tt _, _, _, st => by intro l hl; simp [leaves, step, ttStep, TT.reset, Call.logged] at hl; subst hl; rfl
+  | .text _, _, _, st => by intro l hl; simp [leaves, step, textStep, ttStep, TT.reset, Call.logged] at hl; subst hl; rfl
+  | .etod ch, ho, hn, (own, inner) => by
+      have ho' : ownLeaves ch = true := by simpa [ownLeaves] using ho
+      have hr : (caps ch).startRun = true := by cases ch <;> simp_all [ownLeaves, caps]
+      show Calm ch (step (.etod ch) (own, inner) .startTestRun).2
+      simp only [step, etodStep, hr, ite_true]
+      exact calm_run ch ho' (by simpa [Shape.noStream] using hn) inner
+  | .deco ch, ho, hn, st => calm_run ch (by simpa [ownLeaves] using ho) (by simpa [Shape.noStream] using hn) st
+  | .tagger _ _ ch, ho, hn, st => calm_run ch (by simpa [ownLeaves] using ho) (by simpa [Shape.noStream] using hn) st
+  | .tfr ch, ho, hn, (own, inner) =>
+      calm_run ch (by simpa [ownLeaves] using ho) (by simpa [Shape.noStream] using hn) inner
+  | .multi ss, ho, hn, (own, inner) => by
+      show CalmL ss (step (.multi ss) (own, inner) .startTestRun).2
+      simp only [step]
+      exact calmL_run ss (by simpa [ownLeaves] using ho) (by simpa [Shape.noStream] using hn) _
+  | .e2s _, _, hn, _ => by simp [Shape.noStream] at hn
+theorem calmL_run : ∀ (ss : List Shape), ownLeavesL ss = true → Shape.noStreamL ss = true → ∀ (st : StL ss),
+    CalmL ss (stepL ss st .startTestRun)
+  | [], _, _, _ => by intro l hl; simp [leavesL] at hl
+  | s :: ss, ho, hn, (x, xs) => by
+      simp only [ownLeavesL, Bool.and_eq_true] at ho
+      simp only [Shape.noStreamL, Bool.and_eq_true] at hn
+      intro l hl
+      simp only [leavesL, stepL, List.mem_append] at hl
+      rcases hl with hl | hl
+      · exact calm_run s ho.1 hn.1 x l hl
+      · exact calmL_run ss ho.2 hn.2 xs l hl
+end
+
+mutual
+theorem calm_init : ∀ (s : Shape), s.noStream = true → Calm s (init s)
+  | .sink _, _ => by intro l hl; simp [leaves, init] at hl; subst hl; rfl
+  | .tt _, _ => by intro l hl; simp [leaves, init] at hl; subst hl; rfl
+  | .text _, _ => by intro l hl; simp [leaves, init] at hl; subst hl; rfl
+  | .tbt, _ => by intro l hl; simp [leaves, init] at hl; subst hl; rfl
+  | .etod c, hn => calm_init c (by simpa [Shape.noStream] using hn)
+  | .deco c, hn => calm_init c (by simpa [Shape.noStream] using hn)
+  | .tagger _ _ c, hn => calm_init c (by simpa [Shape.noStream] using hn)
+  | .tfr c, hn => calm_init c (by simpa [Shape.noStream] using hn)
+  | .e2s _, hn => by simp [Shape.noStream] at hn
+  | .multi ss, hn => by
+      have hn' : Shape.noStreamL ss = true := by simpa [Shape.noStream] using hn
+      show CalmL ss (init (.multi ss)).2
+      simp only [init]
+      have hq : ∀ b, Call.setFailfast b ≠ Call.stop := fun b => by simp
+      have a0 := calmL_init ss hn'
+      have a1 := calmL_step ss hn' _ (hq false) _ (.inr rfl) a0
+      have a2 := calmL_step ss hn' _ (hq false) _ (.inr rfl) a1
+      have a3 := calmL_step ss hn' _ (hq false) _ (.inr rfl) a2
+      exact calmL_restore ss hn' _ _ a3
+theorem calmL_init : ∀ (ss : List Shape), Shape.noStreamL ss = true → CalmL ss (initL ss)
+  | [], _ => by intro l hl; simp [leavesL] at hl
+  | s :: ss, hn => by
+      simp only [Shape.noStreamL, Bool.and_eq_true] at hn
+      intro l hl
+      simp only [leavesL, initL, List.mem_append] at hl
+      rcases hl with hl | hl
+      · exact calm_init s hn.1 l hl
+      · exact calmL_init ss hn.2 l hl
+end
+
+mutual
+theorem ffree_init : ∀ (s : Shape), s.noStream = true → (leafParams s).any id = false → FFree s (init s)
+  | .sink _, _, _ => rfl
+  | .tt ff, _, h => by simp only [FFree, init]; simpa [leafParams] using h
+  | .text ff, _, h => by simp only [FFree, init]; simpa [leafParams] using h
+  | .tbt, _, _ => rfl
+  | .etod c, hn, h => ⟨rfl, ffree_init c (by simpa [Shape.noStream] using hn) (by simpa [leafParams] using h)⟩
+  | .deco c, hn, h => ffree_init c (by simpa [Shape.noStream] using hn) (by simpa [leafParams] using h)
+  | .tagger _ _ c, hn, h => ffree_init c (by simpa [Shape.noStream] using hn) (by simpa [leafParams] using h)
+  | .tfr c, hn, h => ⟨rfl, ffree_init c (by simpa [Shape.noStream] using hn) (by simpa [leafParams] using h)⟩
+  | .e2s _, hn, _ => by simp [Shape.noStream] at hn
+  | .multi ss, hn, h => by
+      have hn' : Shape.noStreamL ss = true := by simpa [Shape.noStream] using hn
+      show FFreeL ss (init (.multi ss)).2
+      simp only [init]
+      have a0 := ffreeL_init ss hn' (by simpa [leafParams] using h)
+      have hs := ffreeL_read ss _ a0
+      have a1 := ffreeL_step ss hn' (.setFailfast false) rfl _ a0
+      have a2 := ffreeL_step ss hn' (.setFailfast false) rfl _ a1
+      have a3 := ffreeL_step ss hn' (.setFailfast false) rfl _ a2
+      exact ffreeL_restore ss hn' _ _ hs a3
+theorem ffreeL_init : ∀ (ss : List Shape), Shape.noStreamL ss = true → (leafParamsL ss).any id = false →
+    FFreeL ss (initL ss)
+  | [], _, _ => trivial
+  | s :: ss, hn, h => by
+      simp only [Shape.noStreamL, Bool.and_eq_true] at hn
+      simp only [leafParamsL, List.any_append, Bool.or_eq_false_iff] at h
+      exact ⟨ffree_init s hn.1 h.1, ffreeL_init ss hn.2 h.2⟩
+end
+
+theorem ss_of_calm (s : Shape) (ho : ownLeaves s = true) (hn : s.noStream = true) (st : St s) (h : Calm s st) :
+    shouldStopOf s st = false := by
+  rw [ss_leaves s ho hn, List.any_eq_false]
+  intro l hl
+  simp [h l hl]
+
+def ffNext (ffEver : Bool) (c : Call) : Bool := ffEver || (match c with | .setFailfast b => b | _ => false)
+def reasonNext (reason ffEver' : Bool) (c : Call) : Bool :=
+  match c with
+  | .startTestRun => false
+  | .stop => true
+  | c => reason || (isBadAdd c && ffEver')
+
+theorem notEarlier_cons (f r : Bool) (c : Call) (h : List Call) (o : Obs) (os : List Obs) :
+    notEarlier f r (c :: h) (o :: os)
+      = ((!o.ss || reasonNext r (ffNext f c) c) && notEarlier (ffNext f c) (reasonNext r (ffNext f c) c) h os) := by
+  cases c <;> rfl
+
+theorem ffNext_false (f : Bool) (c : Call) (h : ffNext f c = false) : f = false ∧ notFFTrue c = true := by
+  cases c with
+  | setFailfast b => cases b <;> cases f <;> simp_all [ffNext, notFFTrue]
+  | _ => cases f <;> simp_all [ffNext, notFFTrue]
+
+theorem reasonNext_false (r f' : Bool) (c : Call) (h : reasonNext r f' c = false) :
+    c = .startTestRun ∨ (c ≠ .stop ∧ r = false ∧ (isBadAdd c = true → f' = false)) := by
+  cases c with
+  | startTestRun => exact .inl rfl
+  | stop => simp [reasonNext] at h
+  | add k t a =>
+    simp only [reasonNext, Bool.or_eq_false_iff, Bool.and_eq_false_iff] at h
+    exact .inr ⟨by simp, h.1, fun hb => by rcases h.2 with h2 | h2 <;> simp_all⟩
+  | _ =>
+    simp only [reasonNext, Bool.or_eq_false_iff] at h
+    exact .inr ⟨by simp, h.1, fun hb => by simp [isBadAdd] at hb⟩
+
+/-- not earlier, along a whole history -/
+theorem notEarlier_states (s : Shape) (ho : ownLeaves s = true) (hn : s.noStream = true) :
+    ∀ (h : List Call) (st : St s) (ffEver reason : Bool), (ffEver = false → FFree s st) → (reason = false → Calm s st) →
+    notEarlier ffEver reason h ((states s st h).map (observe s)) = true
+  | [], _, _, _, _, _ => rfl
+  | c :: h, st, ffEver, reason, hF, hC => by
+      simp only [states, List.map_cons, notEarlier_cons, Bool.and_eq_true, Bool.or_eq_true, Bool.not_eq_true']
+      have hF' : ffNext ffEver c = false → FFree s (step s st c) := by
+        intro h0
+        obtain ⟨h1, h2⟩ := ffNext_false _ _ h0
+        have := ffree_steps s hn [c] (by simpa using h2) st (hF h1)
+        simpa using this
+      have hC' : reasonNext reason (ffNext ffEver c) c = false → Calm s (step s st c) := by
+        intro h0
+        rcases reasonNext_false _ _ _ h0 with rfl | ⟨hstop, hr, hb⟩
+        · exact calm_run s ho hn st
+        · refine calm_step s hn c hstop st ?_ (hC hr)
+          by_cases hbad : isBadAdd c = true
+          · obtain ⟨h1, h2⟩ := ffNext_false _ _ (hb hbad)
+            exact .inl ⟨hF h1, by simpa using h2⟩
+          · exact .inr (by simpa using hbad)
+      refine ⟨?_, notEarlier_states s ho hn h _ _ _ hF' hC'⟩
+      cases hr : reasonNext reason (ffNext ffEver c) c
+      · left; exact ss_of_calm s ho hn _ (hC' hr)
+      · right; rfl
+
+/-- **C04 (not earlier).**  `shouldStop` is set only after a `stop()`, or after an error / failure / unexpected
+success reported while fail-fast had been set somewhere (on a result before wrapping, or by an assignment) —
+since the last `startTestRun`.  In particular with fail-fast off and no `stop()` it stays false. -/
+theorem C04_not_earlier (s : Shape) (ho : ownLeaves s = true) (hn : s.noStream = true) (h : List Call) :
+    notEarlier ((leafParams s).any id) false h ((states s (init s) h).map (observe s)) = true :=
+  notEarlier_states s ho hn h (init s) _ _ (fun hf => ffree_init s hn hf) (fun _ => calm_init s hn)
+
 /-! ## the proved clauses of the executable specification hold of the model -/
 theorem obs_map (s : Shape) (st : St s) (h : List Call) (f : Obs → α) :
     ((states s st h).map (observe s)).map f = (states s st h).map (fun x => f (observe s x)) := by
@@ -1508,14 +1674,14 @@ theorem ffStops_tfr (ch : Shape) : ∀ (h : List Call) (st : St (.tfr ch)),
       refine ⟨.inl ?_, ffStops_tfr ch h _ hh.2 hf'⟩
       simp [readFF, caps, failfastOf, hf0]
 
-/-- the clauses of `Spec.C04.clauses` proved of the model so far (not yet: `failfast-kept`, `not-earlier` — these are checked against the implementation and the model by the correspondence only) -/
+/-- the clauses of `Spec.C04.clauses` proved of the model so far (not yet: `failfast-kept` — these are checked against the implementation and the model by the correspondence only) -/
 def provedClauses : List (String × (Input → Trace → Bool)) :=
   [("verdict", cVerdict), ("text-summary", cText), ("failfast-stops", cFailfastStops), ("stop-sticky", cSticky),
-   ("stop-reaches", cStopReaches), ("exit-status", cExit)]
+   ("not-earlier", cNotEarlier), ("stop-reaches", cStopReaches), ("exit-status", cExit)]
 
 /-- **Headline (partial).**  Full statement: `∀ i, i.shape.wf → ¬ tfrOwnFailfastDirect i → ¬ nestedMultiFailfast i →
 Spec.C04.holds i (model i) = true`.  Proved here: the clauses `verdict`, `text-summary`, `failfast-stops`,
-`stop-sticky`, `stop-reaches`, `exit-status` for every input whose graph has no stream pipeline and no `TextTestResult` behind a
+`stop-sticky`, `not-earlier`, `stop-reaches`, `exit-status` for every input whose graph has no stream pipeline and no `TextTestResult` behind a
 `ThreadsafeForwardingResult`, outside the finding class `tfrOwnFailfastDirect`. -/
 theorem holds_model_partial (i : Input) (hw : i.shape.wf = true) (hn : i.shape.noStream = true)
     (ht : i.shape.hasTfr = false ∨ hasText i.shape = false) (hc : tfrOwnFailfastDirect i = false) :
@@ -1526,7 +1692,7 @@ theorem holds_model_partial (i : Input) (hw : i.shape.wf = true) (hn : i.shape.n
     intro h
     simp only [inScope, Bool.and_eq_true, Bool.or_eq_true, Bool.not_eq_true', beq_iff_eq] at h
     exact ⟨h.1.1, h.1.2, h.2⟩
-  refine ⟨?_, ?_, ?_, ?_, ?_, ?_⟩
+  refine ⟨?_, ?_, ?_, ?_, ?_, ?_, ?_⟩
   · -- verdict
     cases hs : inScope i
     · simp [cVerdict, hs]
@@ -1584,6 +1750,12 @@ theorem holds_model_partial (i : Input) (hw : i.shape.wf = true) (hn : i.shape.n
         rw [hh] at this
         simp only [states, List.map_cons, sticky, Bool.and_eq_true] at this ⊢
         exact ⟨by simp, this.2⟩
+  · -- not earlier
+    cases hs : inScope i
+    · simp [cNotEarlier, hs]
+    · obtain ⟨_, ho, _⟩ := scope hs
+      simp only [cNotEarlier, hs, Bool.not_true, Bool.false_or, model]
+      exact C04_not_earlier i.shape ho hn i.hist
   · -- stop reaches
     cases hs : inScope i
     · simp [cStopReaches, hs]
